@@ -150,13 +150,33 @@ func cmdBinCases(args []string) {
 					match += " group_right (" + g.labelList() + ")"
 				}
 			}
-			side := func() string {
+			var side func() string
+			nested := 0
+			side = func() string {
+				if nested == 0 && r.Intn(6) == 0 {
+					// an operand that is itself a join: the operator under test then consumes
+					// the stream of another vector/vector operator
+					nested++
+					inner := pick(r, []string{"+ on (a, b)", "* ignoring (c)", "- on (a) group_left", "> bool ignoring (b, c)", "/ on (a, b, c)"})
+					return fmt.Sprintf("(%s %s %s)", side(), inner, side())
+				}
 				if r.Intn(3) == 0 {
 					return g.freshSelector()
 				}
 				return pick(r, []string{"foo", "bar", `{__name__=~"foo|bar"}`, `{__name__=~".+"}`, `foo{a!=""}`, `bar{b!="2"}`, `{__name__=~".+",c=""}`, `foo{a="x"}`, `{a="x"}`})
 			}
-			c.Query = fmt.Sprintf("(%s%s) %s%s (%s%s)", side(), g.modifiers(), opStr, match, side(), g.modifiers())
+			lhsS, rhsS := side(), side()
+			lm, rm := g.modifiers(), g.modifiers()
+			if strings.HasPrefix(lhsS, "(") {
+				lm = ""
+			}
+			if strings.HasPrefix(rhsS, "(") {
+				rm = ""
+			}
+			if nested > 0 {
+				stats["nested-operand"]++
+			}
+			c.Query = fmt.Sprintf("(%s%s) %s%s (%s%s)", lhsS, lm, opStr, match, rhsS, rm)
 			e, err := parser.ParseExpr(c.Query)
 			if err == nil {
 				expr = e
